@@ -23,7 +23,7 @@ ASSUMPTIONS = ["the explicit shape is enlarged to cover the new common value (pr
 
 @st.composite
 def cases(draw, tier):
-    if draw(st.integers(0, 24)) == 0:
+    if draw(st.integers(0, 7)) == 0:
         # hundreds / thousands of rows, random or sorted, a quarter or only 0.5 % of them outside the favourite category
         spec = draw(Q.large_specs(c03.AGGS, many_ok=False, min_nd=1, max_k=3))
         spec["N"] = min(spec["N"], 2500)
